@@ -98,7 +98,9 @@ func (r *InboundRequestSingleFlight) GetOrCreate(ctx *Context, response *GraphQL
 	inflight, shared := shard.m.LoadOrStore(key, request)
 	if shared {
 		request = inflight.(*InflightRequest)
+		verifYield("inbound.follower.beforeAddFollower", request)
 		request.AddFollower()
+		verifYield("inbound.follower.registered", request)
 		select {
 		case <-request.Done:
 			if request.Err != nil {
@@ -117,6 +119,7 @@ func (r *InboundRequestSingleFlight) GetOrCreate(ctx *Context, response *GraphQL
 		}
 	}
 
+	verifYield("inbound.leader.created", request)
 	return request, nil
 }
 
@@ -126,11 +129,13 @@ func (r *InboundRequestSingleFlight) FinishOk(req *InflightRequest, data []byte)
 	}
 	shard := r.shardFor(req.ID)
 	shard.m.Delete(req.ID)
+	verifYield("inbound.finishOk.afterDelete", req)
 	if req.HasFollowers() {
 		// optimization to only copy when we actually have to
 		req.Data = make([]byte, len(data))
 		copy(req.Data, data)
 	}
+	verifYield("inbound.finishOk.beforeClose", req)
 	close(req.Done)
 }
 
@@ -141,6 +146,7 @@ func (r *InboundRequestSingleFlight) FinishErr(req *InflightRequest, err error) 
 	shard := r.shardFor(req.ID)
 	shard.m.Delete(req.ID)
 	req.Err = err
+	verifYield("inbound.finishErr.beforeClose", req)
 	close(req.Done)
 }
 
